@@ -674,3 +674,47 @@ def register(reg):
       "PYTHONHASHSEED values; replies (stored, undo, direct, retValues) and all tables must be identical bundle by bundle.",
       "documents without time/randomness-dependent formulas; error replies compared by exception class.",
       "Lean 4 theorems (order-independence of the flush) + cross-process differential under PYTHONHASHSEED")
+
+  reg("C10", "proof",
+      "The reference-column machinery (relation.py ReferenceRelation.inverse_map with add/remove_reference, column.py "
+      "BaseColumn.set/unset/clear, BaseReferenceColumn.set/_update_references/copy_from_column/"
+      "get_updates_for_removed_target_rows/_raw_get_without for Ref and RefList) is modelled line by line "
+      "(GristModel/Refs.lean). Proved for ALL operation sequences and ALL columns: inverse_map_exact (after any sequence "
+      "of set/unset/copy_from_column/clear-when-empty the reverse index equals {(t, r) | t in refs(cell r)} and no operation "
+      "raises), remove_clears_refs (on an exact index the computed clean-up never raises, leaves no Ref/RefList cell "
+      "referring to a removed row, a RefList equals its old list filtered with order kept and is None when empty, a Ref "
+      "becomes 0), remove_frame (all other cells, wrong-typed values included, are unchanged; the index stays exact). "
+      "Differentially validated only: that the model equals the real code (every live reference column's logged real "
+      "operations replayed through the model: data and inverse_map incl. key order and empty sets; every real call of "
+      "get_updates_for_removed_target_rows recomputed), and the engine-level cascade: after every successful bundle of "
+      "removal-heavy seeded histories every data Ref/RefList cell of every table (metadata included) is scanned for rows "
+      "that disappeared by any means, the RefList clause is re-evaluated on snapshots, and every real inverse_map is "
+      "compared with the index recomputed from the cells.",
+      "ids non-negative (negative temp ids are rejected by the engine; such columns are skipped and counted); hypothesis "
+      "of inverse_map_exact: BaseColumn.clear (which does not touch the relation) is only called when no cell refers to "
+      "anything (true of load_table after the old rows were unset; the example shows it is necessary); which columns "
+      "doBulkRemoveRecord visits and the user-action path for metadata tables are validated by the direct oracle, not "
+      "proved. One recorded finding: ReplaceTableData drops referenced rows without clean-up (known_findings.json).",
+      "Lean 4 theorems (induction over the operation list; association-list dict/set model) + differential correspondence + direct oracle on a live engine")
+
+  reg("C11", "proof",
+      "reverse_references.get_reverse_adjustments, BaseReferenceColumn.prepare_new_values/recalc_from_reverse_values, "
+      "_list_to_value (UniqueReferenceError), trim_update_action and the order of the doc actions in doBulkUpdateRecord / "
+      "doBulkRemoveRecord are modelled for a pair of linked columns (GristModel/Refs.lean: Pair, updateX/Y, removeX/Y, "
+      "rebuildY). Proved for all pairs (Ref/RefList on either side), all bulk updates naming every row at most once "
+      "(duplicate targets, several rows retargeted at once): reverse_adjustments_sym_partial(_y) (Sym + exact indexes + "
+      "accepted update => Sym and exact indexes again), unique_rejects (UniqueReferenceError iff the other side is Ref "
+      "and some touched target would get two referrers), remove_sym(_y) (record removal on either side with the C10 "
+      "clean-up keeps Sym), rebuild_sym / rebuild_rejects (recalc_from_reverse_values after a Ref<->RefList switch or "
+      "link creation yields Sym whatever the reverse column held; rejected iff a single-valued side would get two "
+      "referrers). The full statement without 'every row at most once' is proved FALSE of the code "
+      "(reverse_adjustments_sym_full_false; witness replayed on the real engine every run). Differentially validated "
+      "only: model == real code (every real get_reverse_adjustments call; single-action update/remove/AddReverseColumn "
+      "bundles through updateX/removeX/rebuildY vs the engine's cells or error class) and the engine level: Sym on every "
+      "linked pair after every successful bundle of seeded histories (edits of either side, removals, type switches, "
+      "link creation/removal, undo), rejected UniqueReferenceError bundles leave no trace.",
+      "Sym ranges over existing rows (dangling ids are supported values); row ids positive; theorems are per pair and per "
+      "action writing one side; record additions and same-table both-sides writes are oracle-only. Three recorded findings "
+      "(known_findings.json): same row named twice in a bulk update; one action writing both columns of a same-table "
+      "pair; row added under an id a dangling two-way reference points to.",
+      "Lean 4 theorems (set algebra over association lists, strict-sortedness for the uniqueness check) + differential correspondence + direct oracle on a live engine")
